@@ -19,7 +19,7 @@ RULE = (
 )
 BOUNDS = {
     "quick": "n<=5; all 2^(n-2) column masks x 2 entry classes; all 2^(n(n-1)/2) lower support masks for n<=4; scalings 2^+-27",
-    "thorough": "n<=6, 3 fill rows",
+    "thorough": "n<=7, 3 fill rows",
 }
 WALL_BUDGET = {"quick": 300, "thorough": 2400}
 ASSUMPTIONS = ["spectrum invariant: eigenvalues of the complex adjoint compared as multisets with a conditioning-free bound only for normal inputs; otherwise characteristic-polynomial coefficients (trace powers) are compared"]
@@ -28,7 +28,7 @@ STRUCT = ["generic", "hermitian", "triu", "tril", "hess", "zero", "identity", "r
 
 
 def cases(tier, seed):
-    N = 5 if tier == "quick" else 6
+    N = 5 if tier == "quick" else 7
     rows = 1 if tier == "quick" else 3
     out = []
     for n in range(1, N + 1):
